@@ -164,3 +164,10 @@ Definition extract_value (skip_first has_root nested : bool) (fields : list (boo
   if found then Some true
   else if nested then match cur with SNil => None | _ => Some false end
   else Some false.
+
+(* route.getEventTime on an integer-looking header of length len: the `len == 10` branch does not slice; the other
+   branch slices [:10] and [10:]. [guarded]: that branch is `else if len > 10` (the source); otherwise a plain `else`. *)
+Definition event_time_slice (guarded : bool) (len : Z) : option unit :=
+  if len =? 10 then Some tt
+  else if (if guarded then 10 <? len else true) then (if len <? 10 then None else Some tt)
+  else Some tt.
